@@ -87,6 +87,7 @@ func c08Events(file *ast.File, fn *ast.FuncDecl, depth int) []c08Event {
 	}
 	assigned := map[*ast.CallExpr]string{}
 	deferred := map[*ast.CallExpr]bool{}
+	calledFun := map[*ast.SelectorExpr]bool{}
 	var walk func(n ast.Node, inLit bool)
 	walk = func(n ast.Node, inLit bool) {
 		ast.Inspect(n, func(x ast.Node) bool {
@@ -104,7 +105,19 @@ func c08Events(file *ast.File, fn *ast.FuncDecl, depth int) []c08Event {
 				}
 			case *ast.DeferStmt:
 				deferred[v.Call] = true
+			case *ast.SelectorExpr:
+				// a helper method of the same receiver handed over as a method value (`Enqueue(q, db.helper)`): it runs later
+				if depth > 0 && recvName != "" && !calledFun[v] {
+					if id, ok := v.X.(*ast.Ident); ok && id.Name == recvName {
+						if h := findFunc(file, recvType, v.Sel.Name); h != nil && h != fn {
+							out = append(out, c08Inline(file, h, depth-1, recvName, nil, true)...)
+						}
+					}
+				}
 			case *ast.CallExpr:
+				if sel, ok := v.Fun.(*ast.SelectorExpr); ok {
+					calledFun[sel] = true
+				}
 				ev := c08Event{nargs: len(v.Args), inLit: inLit, defer_: deferred[v], assign: assigned[v]}
 				for _, a := range v.Args {
 					ev.args = append(ev.args, c08Src(a))
@@ -120,18 +133,7 @@ func c08Events(file *ast.File, fn *ast.FuncDecl, depth int) []c08Event {
 				// follow helper methods of the same receiver declared in this file
 				if depth > 0 && recvName != "" && ev.recv == recvName {
 					if h := findFunc(file, recvType, ev.name); h != nil && h != fn {
-						sub := c08Events(file, h, depth-1)
-						for i := range sub {
-							sub[i].inLit = sub[i].inLit || inLit
-							// the helper's receiver is this receiver
-							if h.Recv != nil && len(h.Recv.List[0].Names) == 1 {
-								hn := h.Recv.List[0].Names[0].Name
-								if sub[i].recv == hn || strings.HasPrefix(sub[i].recv, hn+".") {
-									sub[i].recv = recvName + strings.TrimPrefix(sub[i].recv, hn)
-								}
-							}
-						}
-						out = append(out, sub...)
+						out = append(out, c08Inline(file, h, depth-1, recvName, ev.args, inLit)...)
 						return true
 					}
 				}
@@ -142,6 +144,47 @@ func c08Events(file *ast.File, fn *ast.FuncDecl, depth int) []c08Event {
 	}
 	walk(fn.Body, false)
 	return out
+}
+
+// c08Inline returns the events of helper h as they appear at a call site: the helper's receiver becomes the caller's
+// receiver and its parameters become the argument expressions of the call (so a value keeps its caller-side name).
+func c08Inline(file *ast.File, h *ast.FuncDecl, depth int, recvName string, args []string, inLit bool) []c08Event {
+	sub := c08Events(file, h, depth)
+	subst := map[string]string{}
+	if h.Recv != nil && len(h.Recv.List) == 1 && len(h.Recv.List[0].Names) == 1 {
+		subst[h.Recv.List[0].Names[0].Name] = recvName
+	}
+	if h.Type.Params != nil {
+		i := 0
+		for _, f := range h.Type.Params.List {
+			for _, n := range f.Names {
+				if i < len(args) {
+					subst[n.Name] = args[i]
+				}
+				i++
+			}
+		}
+	}
+	ren := func(e string) string {
+		for from, to := range subst {
+			if e == from {
+				return to
+			}
+			if strings.HasPrefix(e, from+".") {
+				return to + strings.TrimPrefix(e, from)
+			}
+		}
+		return e
+	}
+	for i := range sub {
+		sub[i].inLit = sub[i].inLit || inLit
+		sub[i].recv = ren(sub[i].recv)
+		sub[i].assign = ren(sub[i].assign)
+		for j := range sub[i].args {
+			sub[i].args[j] = ren(sub[i].args[j])
+		}
+	}
+	return sub
 }
 
 func c08Find(evs []c08Event, from int, pred func(c08Event) bool) int {
